@@ -14,6 +14,8 @@
              CExactL r  : `cmp_int_float(a, b).is_some_and(Ordering::is_r)`   (int left, exact)
              CExactR r  : `cmp_int_float(b, a).is_some_and(Ordering::is_r)`   (int right, exact; r is
                           the test on the ordering of (int ? float), i.e. already flipped)
+   eqhow   `left == right` on Value (EQValue) or evaluator.rs values_eq (EQNumeric: Value equality except that
+           an Int and a Float are equal when cmp_int_float says Equal)
    vchow   sase.rs values_compare arm;  vehow / vebody  sase.rs values_equal;  cvhow  sase.rs compare_values *)
 From VP Require Import Base.Tactics.
 
@@ -28,7 +30,9 @@ Record arm := mkArm { a_fn : fn; a_op : cop; a_lt : vty; a_rt : vty; a_how : com
 
 Inductive vchow := VCIntCmp | VCFloatPartial | VCCastL | VCCastR | VCExactL | VCExactRRev | VCStrCmp.
 Inductive vehow := VEDirectEq | VEFloatEps | VEMixedEps.
-Inductive vebody := VEArms (l : list (vty * vty * vehow)) | VEValueEqAll.
+Inductive vebody := VEArms (l : list (vty * vty * vehow)) | VEValueEqAll | VENumericAll.
+(* shape of `==` / `!=` in an evaluator: Value equality, the numeric helper values_eq, or not recognised *)
+Inductive eqhow := EQValue | EQNumeric | EQUnknown.
 Inductive cvhow := CVEqual | CVNotEqual | CVOrd (accept : list comparison).
 
 Definition fn_eqb (a b : fn) : bool := match a, b with FExpr, FExpr | FBinop, FBinop => true | _, _ => false end.
